@@ -60,6 +60,7 @@ def check(run, repo):
                 sol = Obj('sol', closed=True)
                 x = ListV([I_.D.sym('xsol%d' % i) for i in range(ns)])
                 x.is_array = True
+                x.dtype = 'float'           # the solver works on float64 vectors
                 sol.attrs.update({'x': x, 'success': success, 'status': C(0 if success else 9),
                                   'message': 'solver message', 'fun': I_.D.sym('fsol'), 'nit': C(7)})
                 cap['sol'] = sol
@@ -95,6 +96,7 @@ def check(run, repo):
             # objective and its Jacobian
             xs = ListV([D.sym('x%d' % i) for i in range(ns)])
             xs.is_array = True
+            xs.dtype = 'float'              # the solver hands float64 vectors to the callbacks
             args = cap.get('args')
             fun, jac = cap.get('fun'), cap.get('jac')
             if not (isinstance(fun, FuncRef) and isinstance(jac, FuncRef) and isinstance(args, ListV)):
